@@ -53,6 +53,8 @@ def handle (op : String) (req : Json) : R Json := do
       ("rho", jRat (D l / (Sw l * Swxx l))),
       ("rho_y", jRat (Dy l / (Sw l * Swyy l))),
       ("xr2", jRat (Swxx l / Sw l)),
+      -- 1 − 1/n_eff: relative size of np.cov's normalisation factor Σw − Σw²/Σw
+      ("cov_margin", jRat ((Sw l ^ 2 - Sww l) / Sw l ^ 2)),
       ("dy_pos", jBool (decide (0 < Dy l)))])
   | "c06.calibrate" =>
     let g ← getRat req "gradient"
